@@ -1235,6 +1235,267 @@ def run_equality(ck, it, exe_model, triples, label, annotate_rng=None):
     ck.sample({"stream": label, "a": dv_nickel(a)[:150], "b": dv_nickel(b)[:150], "impl": (impl[0] or "")[:120], "model": mo[0]})
 
 
+# ===================================================================== extended values (EqX.v)
+# ("bot",) | scalars/variants as above | ("a", [ctr], [xv]) | ("r", [(key, optional?, [ctr], xv or None)])
+# ctr: "num" "str" "bool" "dyn" ("arr", ctr)
+def ctr_nickel(c):
+    if isinstance(c, tuple):
+        return "Array (%s)" % ctr_nickel(c[1])
+    return {"num": "Number", "str": "String", "bool": "Bool", "dyn": "Dyn"}[c]
+
+
+def ctr_sx(c):
+    return "(arr %s)" % ctr_sx(c[1]) if isinstance(c, tuple) else c
+
+
+def xv_nickel(x):
+    k = x[0]
+    if k == "bot":
+        return "(1/0)"
+    if k == "v":
+        return "('%s %s)" % (enum_tag(x[1]), xv_nickel(x[2]))
+    if k == "a":
+        txt = "[" + ", ".join(xv_nickel(y) for y in x[2]) + "]"
+        for c in x[1]:
+            txt = "(%s | Array (%s))" % (txt, ctr_nickel(c))
+        return txt
+    if k == "r":
+        parts = []
+        for key, opt, cs, v in x[1]:
+            f = '"%s"' % key
+            if opt:
+                f += " | optional"
+            for c in cs:
+                f += " | " + ctr_nickel(c)
+            if v is not None:
+                f += " = " + xv_nickel(v)
+            parts.append(f)
+        return "{" + ", ".join(parts) + "}"
+    return dv_nickel(x)
+
+
+def xv_sx(x):
+    k = x[0]
+    if k == "bot":
+        return "bot"
+    if k == "v":
+        return "(v %s %s)" % (x[1], xv_sx(x[2]))
+    if k == "a":
+        return "(a (c %s) %s)" % (" ".join(ctr_sx(c) for c in x[1]), " ".join(xv_sx(y) for y in x[2]))
+    if k == "r":
+        return "(r %s)" % " ".join("(%s %s (c %s) %s)" % (key, "opt" if opt else "req", " ".join(ctr_sx(c) for c in cs),
+                                                        "nodef" if v is None else xv_sx(v)) for key, opt, cs, v in x[1])
+    return dv_sx(x)
+
+
+def ctr_accepts(c, x):
+    if c == "dyn":
+        return True
+    if isinstance(c, tuple):
+        return x[0] == "a"
+    return {"num": "n", "str": "s", "bool": "b"}[c] == x[0]
+
+
+def xv_norm(cs, x):
+    """The data a closure (contracts cs, value x) stands for, or None (mirrors EqX.norm; used as the
+    stripped operand of the direct oracle, evaluated by the interpreter itself)."""
+    k = x[0]
+    if k == "bot" or not all(ctr_accepts(c, x) for c in cs):
+        return None
+    if k == "v":
+        a = xv_norm([], x[2])
+        return None if a is None else ("v", x[1], a)
+    if k == "a":
+        ecs = list(x[1]) + [c[1] for c in cs if isinstance(c, tuple)]
+        items = [xv_norm(ecs, y) for y in x[2]]
+        return None if any(i is None for i in items) else ("a", items)
+    if k == "r":
+        out = []
+        for key, opt, fcs, v in x[1]:
+            if v is None:
+                if not opt:
+                    return None
+                continue
+            d = xv_norm(fcs, v)
+            if d is None:
+                return None
+            out.append((key, d))
+        return ("r", out)
+    return x
+
+
+def fitting_ctr(rng, x, wild):
+    """A contract for value x: one that accepts it (always when not wild)."""
+    if wild and rng.chance(1, 6):
+        return rng.choice(["num", "str", "bool", ("arr", "dyn")])
+    c = rng.below(3)
+    if c == 0 or x[0] in ("null", "e", "v", "r", "bot"):
+        return "dyn"
+    if x[0] == "a":
+        if x[2] and all(y[0] == "n" for y in x[2]) and rng.chance(1, 2):
+            return ("arr", "num")
+        return ("arr", "dyn")
+    return {"n": "num", "s": "str", "b": "bool"}[x[0]]
+
+
+def gen_xv(rng, depth, wild):
+    c = rng.below(14)
+    if wild and rng.chance(1, 12):
+        return ("bot",)
+    if depth <= 0 or c < 5:
+        return gen_dv(rng, 0)
+    if c < 6:
+        return ("v", rng.choice(TAGS), gen_xv(rng, depth - 1, wild))
+    if c < 9:
+        items = [gen_xv(rng, depth - 1, wild) for _ in range(rng.below(4))]
+        x = ("a", [], items)
+        cs = []
+        for _ in range(rng.below(3)):
+            cc = fitting_ctr(rng, x, wild)
+            if isinstance(cc, tuple):
+                cs.append(cc[1])
+        return ("a", cs, items)
+    fields = []
+    for key in rng.shuffle(KEYS)[:rng.below(5)]:
+        c2 = rng.below(10)
+        if c2 < 2:
+            fields.append((key, True, [rng.choice(["num", "dyn", ("arr", "dyn")])] if rng.chance(1, 3) else [], None))
+        elif c2 < 3 and wild:
+            fields.append((key, False, [], None))
+        else:
+            v = gen_xv(rng, depth - 1, wild)
+            cs = [fitting_ctr(rng, v, wild) for _ in range(rng.below(3))]
+            fields.append((key, rng.chance(1, 5), cs, v))
+    return ("r", fields)
+
+
+def xv_of_dv(d, rng):
+    """d as an extended value decorated with passing contracts, empty optional fields, shuffled."""
+    k = d[0]
+    if k == "v":
+        return ("v", d[1], xv_of_dv(d[2], rng))
+    if k == "a":
+        items = [xv_of_dv(y, rng) for y in d[1]]
+        cs = [rng.choice(["dyn", "num"] if d[1] and all(y[0] == "n" for y in d[1]) else ["dyn"]) for _ in range(rng.below(3))]
+        return ("a", cs, items)
+    if k == "r":
+        fields = []
+        for key, v in d[1]:
+            xvv = xv_of_dv(v, rng)
+            fields.append((key, rng.chance(1, 4), [fitting_ctr(rng, xvv, False) for _ in range(rng.below(3))], xvv))
+        free = [x for x in KEYS if x not in [f[0] for f in fields]]
+        for key in rng.shuffle(free)[:rng.below(3)]:
+            fields.append((key, True, [], None))
+        return ("r", rng.shuffle(fields))
+    return d
+
+
+def xv_wild_mutate(rng, x):
+    """Turn one place of x into something that is not data: an undefined field, a failing contract,
+    an erroring element."""
+    k = x[0]
+    if k == "v" and rng.chance(2, 3):
+        return ("v", x[1], xv_wild_mutate(rng, x[2]))
+    if k == "a" and x[2]:
+        i = rng.below(len(x[2]))
+        c = rng.below(4)
+        if c == 0:
+            return ("a", x[1] + [rng.choice(["num", "str", "bool"])], x[2])
+        if c == 1:
+            return ("a", x[1], x[2][:i] + [("bot",)] + x[2][i + 1:])
+        return ("a", x[1], x[2][:i] + [xv_wild_mutate(rng, x[2][i])] + x[2][i + 1:])
+    if k == "r" and x[1]:
+        i = rng.below(len(x[1]))
+        key, opt, cs, v = x[1][i]
+        c = rng.below(6)
+        if c == 0:
+            f = (key, False, cs, None)
+        elif c == 1:
+            f = (key, True, cs, None)
+        elif c == 2:
+            f = (key, opt, cs + [rng.choice(["num", "str", "bool", ("arr", "dyn")])], v)
+        elif c == 3 or v is None:
+            f = (key, opt, cs, ("bot",))
+        else:
+            f = (key, opt, cs, xv_wild_mutate(rng, v))
+        return ("r", x[1][:i] + [f] + x[1][i + 1:])
+    return ("bot",) if rng.chance(1, 2) else x
+
+
+def gen_xpairs(rng, n):
+    out = []
+    for _ in range(n):
+        c = rng.below(10)
+        if c < 4:       # same data, different decoration
+            d = gen_dv(rng, rng.range(1, 3))
+            out.append((xv_of_dv(d, rng), xv_of_dv(dv_permute(rng, d), rng)))
+        elif c < 6:     # slightly different data
+            d = gen_dv(rng, rng.range(1, 3))
+            out.append((xv_of_dv(d, rng), xv_of_dv(dv_mutate(rng, d), rng)))
+        elif c < 8:     # wild: errors, failing contracts, missing definitions; related operands
+            d = gen_dv(rng, rng.range(1, 3))
+            a, b = xv_of_dv(d, rng), xv_of_dv(dv_permute(rng, d) if rng.chance(2, 3) else dv_mutate(rng, d), rng)
+            if rng.chance(1, 2):
+                a = xv_wild_mutate(rng, a)
+            else:
+                b = xv_wild_mutate(rng, b)
+            if rng.chance(1, 4):
+                a = xv_wild_mutate(rng, a)
+            out.append((a, b))
+        else:
+            out.append((gen_xv(rng, 2, rng.chance(1, 2)), gen_xv(rng, 2, rng.chance(1, 2))))
+    return out
+
+
+def run_xequality(ck, it, exe_model, pairs, label):
+    """Extended values: interpreter vs extracted EqX model; and, when both operands stand for data,
+    the direct oracle `(a == b) == (strip a == strip b)` on the interpreter's own answers."""
+    if not pairs:
+        return
+    rc, mo, err = core.run_sharded(exe_model, [], ["X %s %s" % (xv_sx(a), xv_sx(b)) for a, b in pairs])
+    if rc != 0:
+        ck.obligation("model-run:" + label, "internal", False, "rc=%s %s" % (rc, err[-600:]))
+    exprs, singles = [], []
+    for i, (a, b) in enumerate(pairs):
+        na, nb = xv_norm([], a), xv_norm([], b)
+        if na is not None and nb is not None:
+            exprs.append("(let A = %s in let B = %s in [A == B, B == A, %s == %s])" % (xv_nickel(a), xv_nickel(b), dv_nickel(na), dv_nickel(nb)))
+        else:
+            exprs.append("(%s == %s)" % (xv_nickel(a), xv_nickel(b)))
+            if not mo[i].startswith("OK"):
+                singles.append(i)
+    impl = it.eval_many(exprs, singles)
+    for (a, b), m, im in zip(pairs, mo, impl):
+        im = norm_impl(im or "<none>")
+        na, nb = xv_norm([], a), xv_norm([], b)
+        rep = {"kind": "xequality", "a": xv_nickel(a), "b": xv_nickel(b), "impl": im, "model": m,
+               "sx": [xv_sx(a), xv_sx(b)], "how_to_replay": "./verif check C16 --replay <this file>"}
+        ck.case(key=xv_sx(a) + xv_sx(b), nontrivial=True)
+        ck.hist("xequality_cases", label + (":data" if na is not None and nb is not None else ":wild"))
+        ck.hist("xequality_outcomes", m.split(" !")[0].replace(" norm", ""))
+        if "!NORM" in m or "!WF" in m:
+            corr_fail(ck, "model-internal:xeq-vs-norm", "extracted model: xeq_machine differs from == of the normalised data on %s" % rep)
+        if im in ("ERR Panic", "ERR Budget") or im.startswith("<"):
+            ck.violation("xeq-crash", "== crashed / did not answer", rep)
+            continue
+        mres = m.split(" ")[0] + " " + m.split(" ")[1]
+        if na is not None and nb is not None:
+            if not im.startswith("OK ["):
+                ck.violation("xeq-data-error", "== raised an error on operands that stand for data (validating contracts, empty optional fields)", rep)
+                continue
+            ab, ba, stripped = [v == "true" for v in split_top(im[4:-1])]
+            if ab != stripped:
+                ck.violation("eq-pending-contracts", "== is changed by validating pending contracts / empty optional fields", rep)
+            elif ab != ba:
+                ck.violation("eq-sym", "a == b differs from b == a", rep)
+            elif mres != ("OK true" if ab else "OK false"):
+                corr_fail(ck, "correspondence:xeq-model-vs-interpreter", json.dumps(rep)[:1500])
+        elif mres != im:
+            corr_fail(ck, "correspondence:xeq-model-vs-interpreter", json.dumps(rep)[:1500])
+    a, b = pairs[0]
+    ck.sample({"stream": label, "a": xv_nickel(a)[:160], "b": xv_nickel(b)[:160], "impl": (impl[0] or "")[:80], "model": mo[0]})
+
+
 # ---- pinned corner cases of == and pow, evaluated by the interpreter only.
 # (nickel expression, expected line per the property, violation key, note)
 PINNED = [
@@ -1373,6 +1634,8 @@ def run(ck):
         tri = [(a, b, c) for a in u for b in u for c in u]
         ck.coverage["exhaustive_small_universe_triples"] = len(tri)
     run_equality(ck, it, exe_model, tri, "small-universe")
+    # 5. extended values: pending contracts, optional / undefined fields, erroring elements (evaluation order)
+    run_xequality(ck, it, exe_model, gen_xpairs(rng.fork(), 1500 if quick else 30000), "extended")
     ck.coverage["interpreter_programs"] = it.programs
     ck.coverage["rule"] = ("numeric: every p/q with |p|<=%d, q<=%d in every spelling (fraction, integer, decimal, exponent-, exponent+, leading zeros, E+0, leading dot) "
                            "x unary std functions; pairs x {+,-,*,/,%%,<,<=,>,>=,==,!=,min,max,compare,pow} (thorough: all pairs; quick: seeded sample); "
@@ -1395,6 +1658,12 @@ def replay_case(ck, it, exe_model, obj):
         ck.case(key=obj["nickel"])
         if outs[0] != obj["expected"]:
             ck.violation(obj.get("key", "pinned"), "`%s` gives `%s`, the property demands `%s`" % (obj["nickel"], outs[0], obj["expected"]), obj)
+    elif kind == "xequality":
+        outs = it.eval_many(["(%s == %s)" % (obj["a"], obj["b"])], singles=[0])
+        rc, mo, err = core.run_sharded(exe_model, [], ["X %s %s" % tuple(obj["sx"])])
+        ck.case(key=obj["a"] + obj["b"])
+        if norm_impl(outs[0]) != " ".join(mo[0].split(" ")[:2]):
+            corr_fail(ck, "correspondence:xeq-model-vs-interpreter", "%s == %s: impl %s model %s" % (obj["a"], obj["b"], outs[0], mo[0]))
     elif kind == "equality-dv":
         t = tuple(tupleize(x) for x in obj["triple"])
         run_equality(ck, it, exe_model, [t], "replay", annotate_rng=core.SplitMix64(obj.get("annotate_seed", 1)) if obj.get("annotate") else None)
